@@ -11,6 +11,7 @@ package main
 // Independent Go-side oracles (no model) check the property's words directly on the capture.
 
 import (
+	"bytes"
 	"fmt"
 	"net"
 	"net/netip"
@@ -26,7 +27,7 @@ import (
 )
 
 type hop struct {
-	kind    byte // S P C R
+	kind    byte // S P C R X
 	mac     net.HardwareAddr
 	ip      netip.Addr // zero = invalid
 	counter int
@@ -57,6 +58,8 @@ func (o hop) tok() string {
 		return fmt.Sprintf("%c:%s:%s", o.kind, hx(o.mac), ipTok(o.ip))
 	case 'C':
 		return "C"
+	case 'X':
+		return "X:" + hx(o.msg)
 	case 'R':
 		hk := "F"
 		if o.hk {
@@ -79,6 +82,8 @@ func parseScript(toks []string) []hop {
 		case "R":
 			c, _ := strconv.Atoi(f[1])
 			ops = append(ops, hop{kind: 'R', counter: c, hk: f[2] == "T", src: tokIP(f[3]), eth: lib.UnHex(f[4]), msg: lib.UnHex(f[5])})
+		case "X":
+			ops = append(ops, hop{kind: 'X', msg: lib.UnHex(f[1])})
 		case "D":
 			if n := len(ops); n > 0 {
 				ops[n-1].delay, _ = strconv.Atoi(f[1])
@@ -125,6 +130,7 @@ type callLog struct {
 	obs      string
 	newRtr   string // hex of the router IP this RA created, "" otherwise
 	nRouters int    // after the call
+	learned  bool   // the source of this RA is in the table after the call
 }
 
 type event struct {
@@ -155,6 +161,8 @@ func stageName(s packet.HuntStage, err error) string {
 func runScript(r *lib.Run, ops []hop, label string) ([]string, string) {
 	s, conn := lib.NewSession()
 	h, _ := icmp_spoofer.New6(s)
+	rx := newRxBuf()
+	lastRA := map[netip.Addr][]byte{}
 	calls := make([]callLog, 0, len(ops))
 	closedAt := time.Time{}
 	for _, o := range ops {
@@ -176,25 +184,30 @@ func runScript(r *lib.Run, ops []hop, label string) ([]string, string) {
 			h.Lock()
 			before := len(h.LANRouters)
 			h.Unlock()
-			ret := deliver(s, h, o.counter, o.eth, o.src, o.msg, o.hk)
+			ret := deliver(s, h, rx, o.counter, o.eth, o.src, o.msg, o.hk)
 			h.Lock()
 			after := len(h.LANRouters)
-			def := "-"
-			if h.Router != nil {
-				a := h.Router.Addr.IP.As16()
-				def = hx(a[:])
-			}
 			h.Unlock()
-			rt := h.FindRouter(o.src)
-			dump := "none"
-			if rt.Addr.IP.IsValid() {
-				dump = showRouterAll(rt)
-			}
-			c.obs = fmt.Sprintf("%s def=%s n=%d %s", ret, def, after, dump)
+			c.obs = ret + " " + showTable(h)
 			c.nRouters = after
+			c.learned = h.FindRouter(o.src).Addr.IP.IsValid()
 			if after > before {
 				a := o.src.As16()
 				c.newRtr = hx(a[:])
+			}
+			if ret == "ok" && o.hk && (o.counter+1)%4 == 0 {
+				lastRA[o.src] = o.msg
+			}
+		case 'X':
+			// another ICMPv6 message from some host through the same receive buffer
+			deliver(s, h, rx, 0, hMACs[3], netip.MustParseAddr("fe80::1:99"), o.msg, true)
+			c.obs = "other " + showTable(h)
+		}
+		// "records exactly" must hold for as long as the entry lives: after EVERY step every learned
+		// router is compared with the independent decoding of the ORIGINAL bytes of its last processed RA
+		for src, m := range lastRA {
+			if rt := h.FindRouter(src); rt.Addr.IP.IsValid() {
+				oracleRAfrom(r, m, rt, nil, label+" (persistence, after "+o.tok()+")")
 			}
 		}
 		c.t1 = time.Now()
@@ -363,7 +376,7 @@ func huntOracles(r *lib.Run, label string, calls []callLog, nas []naRec, closedA
 				if strings.HasPrefix(c.obs, "ok") && c.nRouters > 0 {
 					anyRouter = true
 				}
-				if strings.Contains(c.obs, " n=") && !strings.HasSuffix(c.obs, " none") {
+				if c.learned {
 					a := c.op.src.As16()
 					routers[hx(a[:])] = true
 				}
@@ -414,6 +427,20 @@ var (
 	rEths = []net.HardwareAddr{{0, 0x66, 0x66, 0x66, 0x66, 0x66}, {0, 0x77, 0x77, 0x77, 0x77, 0x77}, {0, 0x88, 0x88, 0x88, 0x88, 0x88}}
 )
 
+// other ICMPv6 messages sharing the receive buffer: echo request, echo reply, NS for an LLA, NA, RS
+var otherMsgs = func() [][]byte {
+	pad := bytes.Repeat([]byte{0x5a}, 120)
+	tgt := []byte{0xfe, 0x80, 0, 0, 0, 0, 0, 0, 0, 0, 0, 0, 0, 0, 0, 0x77}
+	ns := append(append([]byte{135, 0, 0, 0, 0, 0, 0, 0}, tgt...), 1, 1, 2, 0, 0, 0, 0, 4)
+	na := append(append([]byte{136, 0, 0, 0, 0x60, 0, 0, 0}, tgt...), 2, 1, 2, 0, 0, 0, 0, 4)
+	return [][]byte{
+		append([]byte{128, 0, 0, 0, 0, 1, 0, 1}, pad...),
+		append([]byte{129, 0, 0, 0, 0, 1, 0, 1}, pad...),
+		append(ns, pad...), append(na, pad...),
+		append([]byte{133, 0, 0, 0, 0, 0, 0, 0, 1, 1, 2, 0, 0, 0, 0, 4}, pad...),
+	}
+}()
+
 func huntIP(rng *lib.Rand, m int) netip.Addr {
 	switch rng.Intn(12) {
 	case 0, 1, 2:
@@ -446,6 +473,8 @@ func genScript(rng *lib.Rand, n int, delay func() int, ras [][]byte) []hop {
 			o = hop{kind: 'P', mac: hMACs[m], ip: huntIP(rng, m)}
 		case c < 60:
 			o = hop{kind: 'C'}
+		case c < 70:
+			o = hop{kind: 'X', msg: otherMsgs[rng.Intn(len(otherMsgs))]}
 		default:
 			k := rng.Intn(len(rSrcs))
 			if rng.Chance(60) {
@@ -471,7 +500,7 @@ func huntScenarios(r *lib.Run, rng *lib.Rand) {
 	ras := directedRAs()[:6]
 	for i := 0; i < 6; i++ {
 		_, m := genRA(rng)
-		if !zeroLenOption(m) && !hasXN(m) {
+		if !hasXN(m) {
 			ras = append(ras, m)
 		}
 	}
